@@ -47,6 +47,20 @@ impl std::io::Write for FragW<'_> {
 	fn flush(&mut self) -> std::io::Result<()> { Ok(()) }
 }
 
+/// A reader that hands out at most k bytes per call of `Read::read` (k by the length of the input: 0 = all, 1, 5, 64).
+pub struct FragR<'a>(&'a [u8], usize);
+impl<'a> FragR<'a> {
+	pub fn new(b: &'a [u8]) -> FragR<'a> { FragR(b, [0, 1, 5, 64][b.len() % 4]) }
+}
+impl std::io::Read for FragR<'_> {
+	fn read(&mut self, buf: &mut [u8]) -> std::io::Result<usize> {
+		let n = buf.len().min(self.0.len()).min(if self.1 == 0 { usize::MAX } else { self.1 });
+		buf[..n].copy_from_slice(&self.0[..n]);
+		self.0 = &self.0[n..];
+		Ok(n)
+	}
+}
+
 pub fn exec(prop: &str, v: &Value) -> Result<Value> {
 	crate::proj_quill::REV.with(|r| r.set(v.get("rev").and_then(Value::as_bool).unwrap_or(false) || std::env::var_os("VERIF_REV").is_some()));
 	match prop {
